@@ -836,7 +836,7 @@ def case_extclip(rng, k, variant):
         fl = (1 << 28) | fl_bits
         steps = []
         for sz, dat in recs:
-            if sz > gen_const("c04_ext_clip_limit", SPEC_MSG_LIMIT):      # record refused before its body is inflated
+            if sz > gen_const("c04_ext_clip_limit", SPEC_REC_LIMIT):      # record refused before its body is inflated
                 steps.append("%d/0" % sz); break
             if sz == 0 or len(dat) != sz:
                 steps.append("%d/0" % sz); break
@@ -846,7 +846,8 @@ def case_extclip(rng, k, variant):
         return ext(be32(fl) + pay)
     msgs = [m_encodings([ENC[rng.choice(MODEL_ENCS)], ENC["extclip"]])]
     for _ in range(rng.choice([2, 4, 7])):
-        kind = rng.choice(["caps", "caps", "good", "good", "edge", "big", "bomb", "req", "plain", "withdraw", "multi", "short"])
+        kind = rng.choice(["caps", "caps", "good", "good", "edge", "big", "bomb", "req", "plain", "withdraw", "multi", "short",
+                           "msgedge", "incompr"])
         if kind == "caps":
             fl = (1 << 24) | rng.choice([1, 1, 1 | 2, 1 | 2 | 4 | 8 | 16, 2, 0])
             n = bin(fl & 0xFFFF).count("1")
@@ -858,15 +859,28 @@ def case_extclip(rng, k, variant):
         elif kind == "good":
             sz = rng.choice([1, 5, 100, 4097, 70000])
             msgs.append(provide(1, [(sz, bytes(rng.randrange(32, 127) for _ in range(sz)))], level=rng.choice([1, 6, 9])))
+        elif kind == "msgedge":
+            # the length check of the (compressed) extended message itself: 1 MiB + 1 KiB since 59a8ab5; a Request
+            # ignores what follows its flags, so its length can be chosen freely
+            M = gen_const("c04_ext_cut_msg_limit", SPEC_MSG_LIMIT)
+            L = rng.choice([(1 << 20) + 1, (1 << 20) + 2, (1 << 20) + rng.randint(3, 1023), M - 1, M, M, M + 1, M + 1])
+            if L <= M:
+                msgs.append(ext(be32((1 << 25) | rng.choice([0, 1])) + bytes([rng.randrange(256)]) * (L - 4)))
+            else:                                        # refused before anything is read
+                msgs.append(m_cut((-L) & 0xFFFFFFFF, bytes(rng.randrange(256) for _ in range(rng.randint(0, 8)))))
+        elif kind == "incompr":
+            # a text of (nearly) 1 MiB that zlib cannot shrink: the message is larger than the text
+            sz = rng.choice([(1 << 20) - 1, 1 << 20])
+            msgs.append(provide(1, [(sz, rng.randbytes(sz))], level=rng.choice([1, 6])))
         elif kind == "edge":
-            L = gen_const("c04_ext_clip_limit", SPEC_MSG_LIMIT)
+            L = gen_const("c04_ext_clip_limit", SPEC_REC_LIMIT)
             sz = rng.choice([(1 << 20) - 1, 1 << 20, L - 1, L])
             msgs.append(provide(1, [(sz, b"E" * sz)]))
         elif kind == "big":
             sz = rng.choice([(1 << 20) + 1, (20 << 20), (20 << 20) + 1, 0x7FFFFFFF, 0x80000000, 0xFFFFFFFF])
             msgs.append(provide(rng.choice([1, 2, 1 | 2]), [(sz, b"xyz" * 10)]))
         elif kind == "bomb":
-            sz = rng.choice([(1 << 20) + 1, gen_const("c04_ext_clip_limit", SPEC_MSG_LIMIT) + 1, 4 << 20, 16 << 20])
+            sz = rng.choice([(1 << 20) + 1, gen_const("c04_ext_clip_limit", SPEC_REC_LIMIT) + 1, 4 << 20, 16 << 20])
             msgs.append(provide(1, [(sz, b"A" * sz)], level=9))
         elif kind == "multi":
             recs = [(rng.choice([1, 50, 3000]), None) for _ in range(2)]
@@ -1097,7 +1111,9 @@ def uninit_probe(ctx, cases, cexe):
     return res, len(sel)
 
 
-SPEC_MSG_LIMIT = (1 << 20) + 1     # the documented limit: 1 MiB of text and the NUL that ends an extended-clipboard record
+SPEC_MSG_LIMIT = (1 << 20) + 1024  # the documented limit: 1 MiB of text (+ NUL of an inflated record); the compressed message of the
+                                   # extended clipboard format may exceed the text by up to 1 KiB (59a8ab5)
+SPEC_REC_LIMIT = (1 << 20) + 1     # an inflated extended-clipboard record: 1 MiB of text and its NUL
 _gen_consts = {}
 
 
@@ -1117,9 +1133,11 @@ def gen_const(name, default):
 
 def msg_limit():
     """what one message may make the server allocate (no file transfer): the limits the source has - the
-    regenerated constants c04_cut_text_limit / c04_ext_clip_limit, the same the model uses - but never more
-    than the documented fixed bound (theorem C04_alloc_bound_fixed is the proof-side guard of the same fact)"""
-    return min(max(gen_const("c04_cut_text_limit", 1 << 20), gen_const("c04_ext_clip_limit", SPEC_MSG_LIMIT)), SPEC_MSG_LIMIT)
+    regenerated constants c04_cut_text_limit / c04_ext_clip_limit / c04_ext_cut_msg_limit, the same the model
+    uses - but never more than the documented fixed bound (theorem C04_alloc_bound_fixed is the proof-side
+    guard of the same fact)"""
+    return min(max(gen_const("c04_cut_text_limit", 1 << 20), gen_const("c04_ext_clip_limit", SPEC_REC_LIMIT),
+                   gen_const("c04_ext_cut_msg_limit", SPEC_MSG_LIMIT)), SPEC_MSG_LIMIT)
 
 
 def strip_impl(line):
